@@ -21,8 +21,8 @@ claim("C04",
       "DESIGN.md §2 C04")
 
 claim("C03",
-      "type-narrowing and zero/sign fact dataflow over the operator nodes (structured abstract interpreter); sibling cross-check of boolean contexts against data.AsBool",
-      "Decides the no-crash clause for operators (every operand type assertion is dominated by a type test or uses the comma-ok form; every division's divisor value and every signed shift count is checked on all paths) and the context-independence clause of truthiness (every boolean context decides through data.AsBool and none inspects a payload itself). Arithmetic results, ==/<=> laws and AsBool's own answers are value-level and not decided.",
+      "type-narrowing and zero/sign fact dataflow over the operator nodes (structured abstract interpreter); sibling cross-check of boolean contexts against data.AsBool; conversion-route check (int conversion of a possibly-float operand feeding the result)",
+      "Decides the no-crash clause for operators (every operand type assertion is dominated by a type test or uses the comma-ok form; every division's divisor value and every signed shift count is checked on all paths) the context-independence clause of truthiness (every boolean context decides through data.AsBool and none inspects a payload itself), and a necessary condition of int-with-float results (an operand that may be a float is never taken through the truncating int conversion on its way into + - * / or a comparison; the order of two ints is not taken from the sign of their difference). Arithmetic results otherwise, ==/<=> laws and AsBool's own answers are value-level and not decided.",
       "operator node set derived from the constructors; facts killed on assignment; calls assumed not to modify locals; Go panic conditions as oracle",
       "DESIGN.md §2 C03")
 
